@@ -492,6 +492,8 @@ class QuantityMachine(Machine):
         if len(self.pool) < 1 or (len(self.pool) < cfg["pool"] and rng.random() < 0.15):
             terms = self._rand_terms(rng) if rng.random() > 0.08 else []
             kind = "array" if cfg["arrays"] and rng.random() < 0.4 else "float"
+            if kind == "float" and rng.random() < 0.12:
+                kind = "decimal"       # a scalar all the same; stays a Decimal through to()
             f = UM.factor(terms)
 
             def scalar():
